@@ -419,6 +419,67 @@ def hexit_scenario(st: Stream) -> Tuple[Dict[str, Any], str]:
     return sc, "hexit-" + kind
 
 
+def poweroff_scenario(st: Stream) -> Tuple[Dict[str, Any], str]:
+    """Round 5 -- the LENGTH of a powered-off period as a generated dimension, relative to the time a running timer
+    still has to go when the program executes OFF: the host keeps stepping the powered-off machine for a generated number
+    of boundaries (none, a few, exactly the remaining timer period, longer, several periods) before the ON key wakes it,
+    and the run continues long enough afterwards for the timer to expire and (masks permitting) be delivered.  Timer
+    periods are longer than in the other families so that 'remaining time at OFF' has a range."""
+    mti = st.choice((3, 5, 8, 12, 20, 30, 40))
+    sti = st.choice((0, 0, mti, 2 * mti, 7, 25, 50))
+    srcs = st.choice((0x00, 0x01, 0x03, 0x08, 0x09, 0x0B, 0x0F, 0x0F))
+    imr0 = (0x80 if st.chance(3, 4) else 0x00) | srcs
+
+    def filler() -> List[Any]:
+        r = st.below(100)
+        return ["NOP"] if r < 65 else (["INCA"] if r < 85 else (["INCM", R.SCRATCH] if r < 93 else ["KIL"]))
+
+    pre = st.below(min(mti, 10))
+    main: List[List[Any]] = [filler() for _ in range(pre)]
+    if st.chance(1, 3):
+        main.insert(st.below(len(main) + 1), ["IMR", 0x80 | srcs] if st.chance(1, 2) else ["ORIMR", 0x80 | srcs])
+    off_at = len(main)
+    main.append(["OFF"])
+    main += [filler() for _ in range(2 + st.below(5))]
+    handler: List[List[Any]] = []
+    for _ in range(st.below(3)):
+        r = st.below(100)
+        handler.append(["NOP"] if r < 35 else (["ACK", 0xFF ^ (1 << st.below(4))] if r < 65 else
+                                               (["ISR", 0] if r < 80 else ["INCM", R.SCRATCH])))
+    remaining = max(mti - (off_at + 1), 1)
+    kind = st.choice(("none", "short", "exact", "exact", "longer", "longer", "periods", "periods"))
+    if kind == "none":
+        dur = 0
+    elif kind == "short":
+        dur = 1 + st.below(max(remaining - 1, 1))
+    elif kind == "exact":
+        dur = remaining + st.below(3) - 1
+    elif kind == "longer":
+        dur = remaining + 1 + st.below(mti + 1)
+    else:
+        dur = remaining + mti * (1 + st.below(3)) + st.below(mti)
+    dur = min(dur, 110)
+    on_at = off_at + 1 + dur
+    events: List[List[Any]] = [[on_at, "on_down", None]]
+    steps = min(on_at + 2 * mti + 12, 170)
+    if st.chance(1, 2):
+        up = on_at + 1 + st.below(6)
+        events.append([up, "on_up", None])
+        if st.chance(1, 2) and up + 4 < steps:
+            events.append([up + 2 + st.below(max(steps - up - 3, 1)), "on_down", None])
+    if st.chance(1, 4):
+        events.append([st.below(steps), "key_inject", st.choice(KEYS)])
+    events = sorted((e for e in events if e[0] < steps), key=lambda e: e[0])
+    sc: Dict[str, Any] = {"prog": {"main": main, "handler": handler}, "imr0": imr0, "isr0": 0, "f0": st.byte(),
+                          "ba0": st.word(), "i0": 1 + st.below(20), "mti": mti, "sti": sti, "steps": steps,
+                          "events": events}
+    if st.chance(1, 2):
+        sc["bp0"] = st.choice(BASES)
+    if st.chance(1, 2):
+        sc["imfill"] = st.below(256)
+    return sc, "poweroff-" + kind
+
+
 def configure(sc: Dict[str, Any], st: Stream, always_batch: bool = False) -> Dict[str, Any]:
     """Host-side configuration of a scenario, drawn from a stream of its own (scenario draws are unchanged):
     "fast" (Python model only): PCE500Emulator.fast_mode, the documented 'minimal execution path' of step() that
@@ -486,6 +547,10 @@ def account(rep: Report, model: str, sc: Dict[str, Any], run: Dict[str, Any], ex
         labels.append(f"{model}:masked-pending>=2")
     if mon.dead:
         labels.append(f"{model}:monitor-stopped-early")
+    if mon.off_steps_armed:
+        labels.append(f"{model}:powered-off-with-running-timer")
+    if mon.off_wakes_armed:
+        labels.append(f"{model}:wake-after-powered-off-period-with-running-timer")
     smp = None
     if sample:
         smp = {"model": model, "scenario": summarize(sc), "deliveries": mon.deliveries, "wakes": mon.wakes,
@@ -516,6 +581,11 @@ def _shard(task: Tuple[str, int, int, int, int, str]) -> Report:
             sc, skel = hexit_scenario(Stream(seed, 0xC124, shard, j))
             scs.append((sc, configure(sc, Stream(seed, 0xC125, shard, j), always_batch=(j % 2 == 0)),
                         ["gen:handler-exit", f"skel:{skel}"]))
+    elif kind == "poweroff":
+        for j in range(param):
+            sc, skel = poweroff_scenario(Stream(seed, 0xC126, shard, j))
+            scs.append((sc, configure(sc, Stream(seed, 0xC127, shard, j), always_batch=(j % 2 == 0)),
+                        ["gen:power-off-period", f"skel:{skel}"]))
     else:
         count = param
         for j in range(count):
@@ -560,6 +630,8 @@ def run(ctx: Ctx) -> Report:
     tasks += [("contend", i, nsh, ctx.seed, per_c, ctx.tier) for i in range(nsh)]
     per_x = ctx.pick(20, 60)
     tasks += [("hexit", i, nsh, ctx.seed, per_x, ctx.tier) for i in range(nsh)]
+    per_o = ctx.pick(8, 30)
+    tasks += [("poweroff", i, nsh, ctx.seed, per_o, ctx.tier) for i in range(nsh)]
     reports = ctx.pmap(_shard, tasks)
     rep = ctx.merge_reports(reports)
     rep.rule = RULE
@@ -573,6 +645,7 @@ def run(ctx: Ctx) -> Report:
     rep.extra["random_scenarios_per_model"] = per * nsh
     rep.extra["contention_scenarios_per_model"] = per_c * nsh
     rep.extra["handler_exit_scenarios_per_model"] = per_x * nsh
+    rep.extra["power_off_period_scenarios_per_model"] = per_o * nsh
     rep.extra["configuration"] = {"python fast_mode": "1/3 of all scenarios", "rust batched step(n)": "an additional run "
                                   "for 1/4 of the enumerated/random scenarios and for every contention scenario",
                                   "batch sizes": sorted(set(BATCHES))}
